@@ -61,6 +61,7 @@ pub fn string_streams(tag: u64, tier: Tier, seed: u64, scale: f64) -> Vec<Stream
             format!("s:{}", strings::repeated_case(i, th))
         }));
     }
+    v.push(Stream::new("construct-slots-x-token-pairs", strings::hole_count(), true, |i| format!("s:{}", strings::hole_case(i))));
     v.push(Stream::new("nesting-bombs", n(600, 20_000), false, move |i| {
         let mut r = Rng::new(mix(&[seed, tag, 4, i]));
         format!("s:{}", strings::nesting_bomb(&mut r))
